@@ -47,6 +47,17 @@ type c27Case struct {
 	CookieArg    int      `json:"cookie_arg,omitempty"`
 	CreatedOff   int64    `json:"created_off,omitempty"`
 	CodeEmpty    bool     `json:"code_empty,omitempty"`
+	// Oversize class: the page is requested with one generated path+query (no
+	// `_vgi_return_to`), built in Run from this spec. Kinds: "single" (one
+	// parameter, no '&'), "crafted" (single parameter which, at offset
+	// len mod 65536 of the path+query, carries two printable bytes that read
+	// as a little-endian uint16 length followed by that many bytes of OvURL),
+	// "multi" (many '&'-separated parameters; control).
+	OvKind string `json:"ov_kind,omitempty"`
+	OvLen  int    `json:"ov_len,omitempty"`  // total bytes of path+query
+	OvFill string `json:"ov_fill,omitempty"` // one filler byte
+	OvRec  string `json:"ov_rec,omitempty"`  // crafted: the two length bytes, e.g. "!!" = 8481
+	OvURL  string `json:"ov_url,omitempty"`  // crafted: attacker URL (padded with 'z' to the recorded length)
 }
 
 // ---- fake IdP ----
@@ -167,8 +178,14 @@ func c27DecodeText(v string) ([]byte, bool) {
 	return nil, false
 }
 
-// c27Unpack returns the fields and the byte offsets of each region (for targeted bit flips).
-func c27Unpack(v string, key []byte) (c c27Cookie, raw []byte, offs []int, ok bool) {
+// c27Unpack reads a cookie the way the documented layout says. status:
+// "ok"; "unreadable" (not base64 / wrong MAC under the derived key / version
+// other than 4: the format is not the one pinned here); "truncated" (MAC and
+// version fine, but a length prefix runs past the payload); "trailing" (MAC
+// and version fine, all four fields read, bytes left over). offs are the byte
+// offsets of each region (for targeted bit flips).
+func c27Unpack(v string, key []byte) (c c27Cookie, raw []byte, offs []int, status string, trailing int) {
+	status = "unreadable"
 	raw, dok := c27DecodeText(v)
 	if !dok || len(raw) < 49 {
 		return
@@ -179,6 +196,7 @@ func c27Unpack(v string, key []byte) (c c27Cookie, raw []byte, offs []int, ok bo
 	if !hmac.Equal(sig, m.Sum(nil)) || payload[0] != 4 {
 		return
 	}
+	status = "truncated"
 	c.Created = int64(binary.LittleEndian.Uint64(payload[1:9]))
 	offs = []int{0, 1} // version, created
 	pos := 9
@@ -196,12 +214,12 @@ func c27Unpack(v string, key []byte) (c c27Cookie, raw []byte, offs []int, ok bo
 		fields[i] = string(payload[pos : pos+n])
 		pos += n
 	}
-	if pos != len(payload) {
-		return
-	}
 	offs = append(offs, len(payload)) // signature
 	c.Verifier, c.State, c.OriginalURL, c.Ret = fields[0], fields[1], fields[2], fields[3]
-	return c, raw, offs, true
+	if pos != len(payload) {
+		return c, raw, offs, "trailing", len(payload) - pos
+	}
+	return c, raw, offs, "ok", 0
 }
 
 // ---- browser-like reading of a Location value ----
@@ -428,7 +446,96 @@ func genC27(t *rapid.T) c27Case {
 	}
 	c.CodeEmpty = rapid.IntRange(0, 19).Draw(t, "codeempty") == 0
 	_ = adversarial
+	if rapid.IntRange(0, 5).Draw(t, "oversize") == 0 {
+		c.ReturnTo, c.ReturnToRaw, c.Query = nil, false, ""
+		if c.AuthCookie == "good" {
+			c.AuthCookie = "" // the page must answer with the login redirect
+		}
+		c.OvFill = []string{"a", "a", "!", "~", "0", "z", "A"}[rapid.IntRange(0, 6).Draw(t, "ovfill")]
+		base := len(c.Prefix+c.Page) + 8
+		smallK := []int{0, 1, 2, 3, 7, 40, 64, 100, 300, 1000, 2047, 2048, 2049}
+		largeK := []int{5000, 8481, 20000, 30000, 40000, 65000, 65534, 65535}
+		pickLen := func() int {
+			mult := []int{1, 1, 1, 2, 3, 4}[rapid.IntRange(0, 5).Draw(t, "ovmult")]
+			var k int
+			switch rapid.IntRange(0, 2).Draw(t, "ovkkind") {
+			case 0:
+				k = smallK[rapid.IntRange(0, len(smallK)-1).Draw(t, "ovsmall")]
+			case 1:
+				k = largeK[rapid.IntRange(0, len(largeK)-1).Draw(t, "ovlarge")]
+			default:
+				k = rapid.IntRange(0, 65535).Draw(t, "ovk")
+			}
+			return mult*65536 + k
+		}
+		switch k := rapid.IntRange(0, 9).Draw(t, "ovkind"); {
+		case k <= 3:
+			c.OvKind, c.OvLen = "single", pickLen()
+		case k <= 6:
+			c.OvKind = "crafted"
+			mult := []int{1, 1, 2, 3}[rapid.IntRange(0, 3).Draw(t, "ovcmult")]
+			off := base + []int{0, 1, 10, 56, 200, 2000, 2040, 3000, 20000}[rapid.IntRange(0, 8).Draw(t, "ovoff")]
+			c.OvLen = mult*65536 + off
+			c.OvRec = []string{"!!", "0!", "~!", "AA", "z$", "!0", "P("}[rapid.IntRange(0, 6).Draw(t, "ovrec")]
+			urls := []string{"https://evil.example/cb?", "http://evil.example:8080/x?y=", "//evil.example/", "/\\evil.example/", "https://cupola.query-farm.services.evil.example/", "javascript:alert(1)//", "https://cupola.query-farm.services/cb?"}
+			for _, a := range c.Allow {
+				urls = append(urls, a+"/cb?", a+".evil.example/")
+			}
+			c.OvURL = urls[rapid.IntRange(0, len(urls)-1).Draw(t, "ovurl")]
+		case k <= 7:
+			c.OvKind, c.OvLen = "single", []int{1500, 2048, 2049, 2050, 4096, 60000, 65534, 65535}[rapid.IntRange(0, 7).Draw(t, "ovunder")]
+		default:
+			c.OvKind = "multi"
+			c.OvLen = []int{5000, 30000, 65535, 65536, 65600, 70000, 131072 + 64, 200000}[rapid.IntRange(0, 7).Draw(t, "ovmultilen")]
+		}
+	}
 	return c
+}
+
+// c27OversizeTarget builds the page path+query of the oversize class.
+func c27OversizeTarget(c c27Case, path string) string {
+	fill := "a"
+	if len(c.OvFill) == 1 && c.OvFill[0] > 0x20 && c.OvFill[0] < 0x7f && strings.IndexByte("&#%+?", c.OvFill[0]) < 0 {
+		fill = c.OvFill
+	}
+	total := c.OvLen
+	if total > 900000 {
+		total = 900000
+	}
+	u := path + "?x="
+	if total < len(u) {
+		total = len(u)
+	}
+	switch c.OvKind {
+	case "multi":
+		var b strings.Builder
+		b.WriteString(path + "?a=1")
+		for i := 0; b.Len()+20 < total; i++ {
+			fmt.Fprintf(&b, "&k%d=%s", i, strings.Repeat(fill, 8+i%40))
+		}
+		b.WriteString("&t=")
+		if b.Len() < total {
+			b.WriteString(strings.Repeat(fill, total-b.Len()))
+		}
+		return b.String()
+	case "crafted":
+		off := total % 65536
+		if off < len(u) || len(c.OvRec) != 2 {
+			return u + strings.Repeat(fill, total-len(u))
+		}
+		n := int(c.OvRec[0]) | int(c.OvRec[1])<<8
+		evil := c.OvURL
+		if len(evil) > n {
+			evil = evil[:n]
+		}
+		evil += strings.Repeat("z", n-len(evil))
+		u += strings.Repeat(fill, off-len(u)) + c.OvRec + evil
+		if len(u) < total {
+			u += strings.Repeat(fill, total-len(u))
+		}
+		return u
+	}
+	return u + strings.Repeat(fill, total-len(u))
 }
 
 // ---- runner ----
@@ -567,6 +674,22 @@ func runC27(c c27Case) (out lib.Outcome) {
 	if len(q) > 0 {
 		target += "?" + strings.Join(q, "&")
 	}
+	if c.OvKind != "" {
+		target = c27OversizeTarget(c, path)
+		out.Label("oversize:" + c.OvKind)
+		switch {
+		case len(target) > 65535 && !strings.Contains(target, "&"):
+			out.Label("oversize:single-param-over-64k")
+			out.NonTrivial = true
+			if c.OvKind == "crafted" {
+				out.Label("oversize:crafted-length-record")
+			}
+		case len(target) > 65535:
+			out.Label("oversize:multi-param-over-64k")
+		case len(target) > 2048:
+			out.Label("oversize:over-2048")
+		}
+	}
 	hdr := map[string]string{"Accept": "text/html,application/xhtml+xml"}
 	authCookie := ""
 	switch c.AuthCookie {
@@ -635,11 +758,43 @@ func runC27(c c27Case) (out lib.Outcome) {
 		out.Violate("C27/login-redirect-incomplete", "%s: login redirect lacks state / S256 challenge / session cookie: %s", where1, lib.Short(locs[0], 300))
 		return
 	}
-	packed, raw, offs, okp := c27Unpack(issued, sessKey)
-	if !okp {
+	packed, raw, offs, ust, trailing := c27Unpack(issued, sessKey)
+	switch ust {
+	case "unreadable":
 		out.Skipped = true
 		out.Label("format-drift:server-cookie-unreadable")
 		return
+	case "truncated":
+		out.Violate("C27/cookie-layout-truncated", "%s: the issued session cookie (%d bytes, MAC valid under the derived key, version 4) has a length prefix that runs past its payload: it does not encode what the server packed",
+			where1, len(raw))
+		return
+	case "trailing":
+		out.Violate("C27/cookie-layout-trailing-bytes", "%s: the issued session cookie (%d bytes, MAC valid, version 4) has %d bytes left over after its four length-prefixed fields (request path+query was %d bytes; unpacked original_url %d bytes, return_to %d bytes %q): the recorded lengths do not describe what the server packed",
+			where1, len(raw), trailing, len(target), len(packed.OriginalURL), len(packed.Ret), lib.Short(packed.Ret, 60))
+	}
+	// the fields are what a correct server packs for this request: return_to
+	// only ever a value the request supplied, original_url the request's own
+	// path+query (bounded to 2048 bytes by cutting) or the prefix root
+	if packed.Ret != "" {
+		given := false
+		for _, rt := range c.ReturnTo {
+			given = given || rt == packed.Ret
+		}
+		if !given {
+			out.Violate("C27/cookie-return-to-not-requested", "%s: the issued cookie unpacks to return_to %q (%d bytes) although the request supplied %d _vgi_return_to value(s), none equal to it",
+				where1, lib.Short(packed.Ret, 80), len(packed.Ret), len(c.ReturnTo))
+		}
+	}
+	root := c.Prefix
+	if root == "" {
+		root = "/"
+	}
+	switch ou := packed.OriginalURL; {
+	case ou == target, ou == root:
+	case len(target) > 2048 && len(ou) <= 2048 && strings.HasPrefix(target, ou) && strings.HasPrefix(ou, path):
+	default:
+		out.Violate("C27/cookie-original-url-not-the-request", "%s: the issued cookie unpacks to original_url %q (%d bytes), which is neither the request's path+query (%d bytes), a cut of it to <= 2048 bytes, nor the prefix root",
+			where1, lib.Short(ou, 80), len(ou), len(target))
 	}
 	// the cookie carries what the redirect promised
 	cs := sha256.Sum256([]byte(packed.Verifier))
@@ -870,11 +1025,12 @@ func runC27(c c27Case) (out lib.Outcome) {
 
 var propC27 = lib.Prop[c27Case]{
 	ID: "C27",
-	Rule: "black-box PKCE flow against a fake IdP on a loopback listener: prefix ''|/vgi|/a/b, 0-3 allowlist entries (with/without port) + the documented default + http localhost, landing/describe page request with an arbitrary query and 0-2 `_vgi_return_to` values (10 honest shapes; ~95 adversarial shapes: suffix/userinfo/percent/backslash/fragment confusions, scheme-relative and slash-count variants, other schemes, port and case mismatches, TAB/CR/LF/NUL, localhost look-alikes, IPv6, IDN homographs, 2048/2049/5000-byte values, random strings), optional _vgi_auth cookie (good/junk/expired JWT/live JWT); then the callback with state in {correct, one byte changed, empty, prefix, extended, other, case-swapped} and cookie in {as issued, bit flipped in each region (version, created, 4 fields, MAC), truncated bytes/text, signed with another key or the underived key, unpadded, absent, garbage, minted by the harness's own v4 packer with created_at offsets -1700000000..+601 s (packer validated first against the server)}. " +
+	Rule: "black-box PKCE flow against a fake IdP on a loopback listener: prefix ''|/vgi|/a/b, 0-3 allowlist entries (with/without port) + the documented default + http localhost, landing/describe page request with an arbitrary query and 0-2 `_vgi_return_to` values (10 honest shapes; ~95 adversarial shapes: suffix/userinfo/percent/backslash/fragment confusions, scheme-relative and slash-count variants, other schemes, port and case mismatches, TAB/CR/LF/NUL, localhost look-alikes, IPv6, IDN homographs, 2048/2049/5000-byte values, random strings), optional _vgi_auth cookie (good/junk/expired JWT/live JWT); 1 case in 6 is of the oversize class instead: a browser GET whose path+query is one '&'-free parameter of m*65536+k bytes (m 1-4; k small, large or uniform), the same with a crafted record at offset len mod 65536 (two printable bytes read as a little-endian uint16 length + that many bytes of an attacker or allowlisted URL), single parameters of 1500-65535 bytes, and multi-parameter URLs of 5 KB-200 KB as controls; the issued cookie must unpack (own v4 reader) with no bytes left over, to a return_to the request supplied and to the request's own path+query (or a <=2048-byte cut of it, or the prefix root); then the callback with state in {correct, one byte changed, empty, prefix, extended, other, case-swapped} and cookie in {as issued, bit flipped in each region (version, created, 4 fields, MAC), truncated bytes/text, signed with another key or the underived key, unpadded, absent, garbage, minted by the harness's own v4 packer with created_at offsets -1700000000..+601 s (packer validated first against the server)}. " +
 		"Non-trivial: `_vgi_return_to` present and adversarial, or a mutated cookie/state.",
 	Gen:          genC27,
 	Run:          runC27,
-	Essential:    []string{"return_to:adversarial", "return_to:allowed", "page:login-redirect", "page:early-redirect", "callback:exchanged", "callback:refused", "callback:external-redirect", "callback:same-origin-redirect", "cookie:mine-expired", "cookie:mine-fresh", "cookie:bitflip", "cookie:otherkey", "state:flip", "location:external-ok", "location:relative-ok"},
+	Essential:    []string{"return_to:adversarial", "return_to:allowed", "page:login-redirect", "page:early-redirect", "callback:exchanged", "callback:refused", "callback:external-redirect", "callback:same-origin-redirect", "cookie:mine-expired", "cookie:mine-fresh", "cookie:bitflip", "cookie:otherkey", "state:flip", "location:external-ok", "location:relative-ok",
+		"oversize:single-param-over-64k", "oversize:crafted-length-record", "oversize:multi-param-over-64k", "oversize:over-2048"},
 	EssentialMin: 400,
 	Assumptions: []string{
 		"cookie and key formats are pinned from the doc comments of oauth_pkce_cookie.go / oauth_pkce_crypto.go (v4 layout; session key = HMAC-SHA256(signing key, \"oauth-pkce-session\")); if the server's cookie cannot be read or the harness's own fresh cookie is refused the case is counted as format drift and skipped",
